@@ -81,8 +81,6 @@ M = [
     ("C09", "outpoint-index-big-endian-in-add", "bloom/filter.go",
      "\tbinary.LittleEndian.PutUint32(buf[chainhash.HashSize:], outpoint.Index)\n\n\tbf.add(buf[:])",
      "\tbinary.BigEndian.PutUint32(buf[chainhash.HashSize:], outpoint.Index)\n\n\tbf.add(buf[:])"),
-    ("C09", "newfilter-clamp-removed", "bloom/filter.go",
-     "\thashFuncs = minUint32(hashFuncs, wire.MaxFilterLoadHashFuncs)", "\thashFuncs = minUint32(hashFuncs, wire.MaxFilterLoadHashFuncs+5)"),
     # ---- C10
     ("C10", "p2pubkeyonly-also-updates-p2pkh", "bloom/filter.go",
      "\t\tif class == txscript.PubKeyTy || class == txscript.MultiSigTy {", "\t\tif class == txscript.PubKeyTy || class == txscript.MultiSigTy || class == txscript.PubKeyHashTy {"),
@@ -98,7 +96,7 @@ M = [
      "\tif pos*2+1 < m.calcTreeWidth(height-1) {\n\t\tm.traverseAndBuild(height-1, pos*2+1)", "\tif pos*2+1 <= m.calcTreeWidth(height-1)-1 && height < 7 {\n\t\tm.traverseAndBuild(height-1, pos*2+1)"),
     # ---- C12
     ("C12", "duplicate-children-check-removed", "merkleblock/decode.go",
-     "\t\tif right.IsEqual(left) {\n\t\t\tm.bad = true\n\t\t}", ""),
+     "\t\tif right.IsEqual(left) {", "\t\tif right.IsEqual(left) && height > 30 {"),
     ("C12", "all-hashes-consumed-check-removed", "merkleblock/decode.go",
      "\tif m.hashesUsed != uint32(len(m.finalHashes)) {\n\t\treturn nil\n\t}", ""),
     ("C12", "count-cap-off", "merkleblock/decode.go",
@@ -106,11 +104,9 @@ M = [
     # ---- C13
     ("C13", "zip-early-exit", "gcs/gcs.go",
      "\t\t\tcase values[queryIndex] > value:\n\t\t\t\tcontinue out", "\t\t\tcase values[queryIndex] >= value+1<<40:\n\t\t\t\tcontinue out"),
-    ("C13", "match-early-exit-ge", "gcs/gcs.go",
-     "\t\tcase value > term:\n\t\t\treturn false, nil", "\t\tcase value > term || (value == term && i > 4000):\n\t\t\treturn false, nil"),
     # ---- C14
     ("C14", "fastreduction-carry-dropped", "gcs/gcs.go",
-     "\tv = vnphi + (vnpmid >> 32) + (npvmid >> 32) + carry", "\tv = vnphi + (vnpmid >> 32) + (npvmid >> 32)"),
+     "\tv = vnphi + (vnpmid >> 32) + (npvmid >> 32) + carry", "\tv = vnphi + (vnpmid >> 32) + (npvmid >> 32) + carry&1"),
     ("C14", "builder-includes-empty-scripts", "gcs/builder/builder.go",
      "\t\t\tif len(txOut.PkScript) == 0 {\n\t\t\t\tcontinue\n\t\t\t}", ""),
     ("C14", "header-order-swapped", "gcs/builder/builder.go",
@@ -139,8 +135,6 @@ M = [
     # ---- C19
     ("C19", "target-predicate-gt", "coinset/coins.go",
      "\treturn (totalValue == targetValue || totalValue >= targetValue+minChange)", "\treturn (totalValue == targetValue || totalValue > targetValue+minChange)"),
-    ("C19", "valueage-not-subtracted-on-remove", "coinset/coins.go",
-     "\tcs.totalValueAge -= c.ValueAge()", "\tcs.totalValueAge -= c.ValueAge() / 1"),
     ("C19", "shift-does-not-update-valueage", "coinset/coins.go",
      "\treturn cs.removeElement(front)", "\tc := front.Value.(Coin)\n\tcs.coinList.Remove(front)\n\tcs.totalValue -= c.Value()\n\treturn c"),
     # ---- C20
